@@ -112,6 +112,33 @@ fn used_resources(ops: &[Op]) -> Vec<(&'static str, String)> {
     out
 }
 
+/// (resource name, "len:hash" of the decoded data or "err:kind") for every XObject of the page's resources
+fn decoded_xobjects<R: Resolve>(r: &R, page: &Page) -> Vec<(String, String)> {
+    let mut out = Vec::new();
+    if let Ok(res) = page.resources() {
+        let mut names: Vec<_> = res.xobjects.iter().collect();
+        names.sort_by(|a, b| a.0.as_str().cmp(b.0.as_str()));
+        for (name, xref) in names.into_iter().take(12) {
+            let d = match r.get(*xref) {
+                Err(e) => format!("err:get:{}", errs::root_kind(&e)),
+                Ok(x) => {
+                    let data = match &*x {
+                        XObject::Image(i) => i.inner.data(r),
+                        XObject::Form(f) => f.stream.data(r),
+                        XObject::Postscript(p) => p.data(r),
+                    };
+                    match data {
+                        Ok(d) => format!("{}:{:016x}", d.len(), crate::engine::walker::h64(&d[..])),
+                        Err(e) => format!("err:data:{}", errs::root_kind(&e)),
+                    }
+                }
+            };
+            out.push((name.as_str().to_string(), d));
+        }
+    }
+    out
+}
+
 fn fail(key: &str, msg: String) -> Value {
     json!({"failure": {"key": format!("c20:{}", key), "msg": msg}})
 }
@@ -133,6 +160,19 @@ pub fn import_job(h: &Value, blob: &[u8]) -> Value {
             match old.get_page(i) {
                 Ok(p) => src_pages.push(p),
                 Err(e) => return Ok(json!({"skipped": format!("source page {} does not load: {}", i, errs::root_kind(&e))})),
+            }
+        }
+        // what a viewer does with the same open source: decode the XObject streams, before or after the import
+        let inspect = h["inspect"].as_u64().unwrap_or(0);
+        // reference: the decoded streams of a separately loaded copy of the source
+        let reference: Vec<Vec<(String, String)>> = match FileOptions::uncached().password(&pw).load(blob.to_vec()) {
+            Ok(f) => pages.iter().map(|&i| f.get_page(i).map(|p| decoded_xobjects(&f.resolver(), &p)).unwrap_or_default()).collect(),
+            Err(_) => vec![],
+        };
+        if inspect == 1 {
+            labels.push("source-inspected-before-import".into());
+            for p in &src_pages {
+                let _ = decoded_xobjects(&old_r, p);
             }
         }
         // ---- import
@@ -239,6 +279,31 @@ pub fn import_job(h: &Value, blob: &[u8]) -> Value {
                 if b1 > 0 && b2 > 0 {
                     if let Some(diff) = first_difference(&canon(&sv), &canon(&nv), "") {
                         return Ok(fail(&format!("resource-differs:{}", cat), format!("page {}: /{} {}: {}", pages[k], cat, name, diff)));
+                    }
+                }
+            }
+        }
+        // the source still decodes as a separately loaded copy does, and the imported streams decode to the same data
+        if inspect == 2 {
+            labels.push("source-inspected-after-import".into());
+        }
+        if !reference.is_empty() {
+            for (k, sp) in src_pages.iter().enumerate() {
+                let now = decoded_xobjects(&old_r, sp);
+                if now != reference[k] {
+                    return Ok(fail("source-changed-by-import", format!("page {}: decoded XObject streams of the open source {:?}, of a fresh copy {:?}", pages[k], now, reference[k])));
+                }
+                if let Ok(np) = new.get_page(k as u32) {
+                    let imported = decoded_xobjects(&new_r, &np);
+                    for (name, want) in &reference[k] {
+                        if want.starts_with("err") {
+                            continue;
+                        }
+                        if let Some((_, got)) = imported.iter().find(|(n, _)| n == name) {
+                            if got != want {
+                                return Ok(fail("imported-stream-decodes-differently", format!("page {}: XObject {}: source decodes to {}, imported copy to {}", pages[k], name, want, got)));
+                            }
+                        }
                     }
                 }
             }
@@ -350,8 +415,15 @@ fn dict_diff(x: &[(Vec<u8>, Canon)], y: &[(Vec<u8>, Canon)], path: &str) -> Opti
 }
 
 pub fn check(data: &[u8], pw: &[u8], pages: &[u32], name: &str, skip: &[String], info: &mut CaseInfo) -> Result<(), Failure> {
-    let art = || json!({"source": Bytes::new(data), "password": Bytes::new(pw), "pages": pages, "name": name});
-    let header = json!({"kind": "import", "password": to_hex(pw), "pages": pages, "skip_categories": skip});
+    for inspect in 0..3u64 {
+        check_mode(data, pw, pages, name, skip, inspect, info)?;
+    }
+    Ok(())
+}
+
+fn check_mode(data: &[u8], pw: &[u8], pages: &[u32], name: &str, skip: &[String], inspect: u64, info: &mut CaseInfo) -> Result<(), Failure> {
+    let art = || json!({"source": Bytes::new(data), "password": Bytes::new(pw), "pages": pages, "name": name, "inspect": inspect});
+    let header = json!({"kind": "import", "password": to_hex(pw), "pages": pages, "skip_categories": skip, "inspect": inspect});
     match isolate::request(&header, data, Duration::from_secs(60)) {
         Reply::Timeout { seconds } => Err(Failure::new("c20:import-does-not-return", format!("{} pages {:?}: no answer within {} s", name, pages, seconds), art())),
         Reply::Died { signal, code, stderr_tail } => {
